@@ -365,7 +365,9 @@ class Tensor:
         return self._elementwise_result(self.array - other)  # type: ignore[operator]
 
     def __rsub__(self, other: Tensor | npt.ArrayLike) -> Tensor:
-        return -self + other
+        if isinstance(other, Tensor):
+            other = other.array
+        return self._elementwise_result(other - self.array)  # type: ignore[operator]
 
     def __neg__(self) -> Tensor:
         return self * (-1)
